@@ -847,13 +847,15 @@ func reachableFromStepOrRun(cx *Ctx) map[*ssa.Function]bool {
 }
 
 // bpFresh: membership in BreakPoints is judged on the field as it is after the
-// Step, so every load of CPU.BreakPoints (directly or in a helper) that can be
-// followed by a Step in the same function must also be executed again after
-// that Step - a load hoisted before the loop (the map, its nil-ness or its
-// length cached on entry) goes stale when a memory or port callback replaces
-// or creates the set while Run executes.
+// Step.  A value loaded from CPU.BreakPoints (the map, or anything computed
+// from it: its nil-ness, its length, a lookup) is stale once a Step has been
+// made since the load - a memory or port callback may have replaced or created
+// the set during that Step.  The rule: in Run and its helpers (outside Step)
+// no such value is used on a path  load -> Step -> use  on which the load is
+// not executed again between the Step and the use, and none is saved to
+// memory at a point from which a Step can follow.
 func bpFresh(cx *Ctx, r *ev.Report, run *ssa.Function) {
-	rule := "BREAKPOINTS-FRESH: in Run and its helpers (outside Step) every load of CPU.BreakPoints from which a Step can follow is executed again after that Step (nothing derived from the set is cached across Steps)"
+	rule := "BREAKPOINTS-FRESH: in Run and its helpers (outside Step) a value loaded or computed from CPU.BreakPoints is never used after a Step made since the load, nor saved to memory before a Step (nothing derived from the set is cached across Steps)"
 	isBPLoad := func(in ssa.Instruction) bool {
 		fa, ok := in.(*ssa.FieldAddr)
 		if !ok {
@@ -885,90 +887,66 @@ func bpFresh(cx *Ctx, r *ev.Report, run *ssa.Function) {
 		}
 		return out
 	}
-	reachStep := map[*ssa.Function]int{} // 0 unknown, 1 no, 2 yes, 3 in progress
-	var reaches func(f *ssa.Function) bool
-	reaches = func(f *ssa.Function) bool {
-		if f == cx.E.Step {
-			return true
-		}
-		switch reachStep[f] {
-		case 1, 3:
-			return false
-		case 2:
-			return true
-		}
-		reachStep[f] = 3
-		res := false
-		for _, b := range f.Blocks {
-			for _, in := range b.Instrs {
-				for _, g := range callees(in) {
-					if reaches(g) {
+	memo := func(base func(f *ssa.Function) (bool, bool), instr func(in ssa.Instruction) bool) func(f *ssa.Function) bool {
+		state := map[*ssa.Function]int{} // 1 no, 2 yes, 3 in progress
+		var rec func(f *ssa.Function) bool
+		rec = func(f *ssa.Function) bool {
+			if v, done := base(f); done {
+				return v
+			}
+			switch state[f] {
+			case 1, 3:
+				return false
+			case 2:
+				return true
+			}
+			state[f] = 3
+			res := false
+			for _, b := range f.Blocks {
+				for _, in := range b.Instrs {
+					if instr != nil && instr(in) {
 						res = true
+					}
+					for _, g := range callees(in) {
+						if rec(g) {
+							res = true
+						}
 					}
 				}
 			}
-		}
-		reachStep[f] = 1
-		if res {
-			reachStep[f] = 2
-		}
-		return res
-	}
-	loadsBP := map[*ssa.Function]int{}
-	var loads func(f *ssa.Function) bool
-	loads = func(f *ssa.Function) bool {
-		if f == cx.E.Step {
-			return false // whatever Step does itself happens within the Step
-		}
-		switch loadsBP[f] {
-		case 1, 3:
-			return false
-		case 2:
-			return true
-		}
-		loadsBP[f] = 3
-		res := false
-		for _, b := range f.Blocks {
-			for _, in := range b.Instrs {
-				if isBPLoad(in) {
-					res = true
-				}
-				for _, g := range callees(in) {
-					if loads(g) {
-						res = true
-					}
-				}
+			state[f] = 1
+			if res {
+				state[f] = 2
 			}
+			return res
 		}
-		loadsBP[f] = 1
-		if res {
-			loadsBP[f] = 2
-		}
-		return res
+		return rec
 	}
+	reaches := memo(func(f *ssa.Function) (bool, bool) { return f == cx.E.Step, f == cx.E.Step }, nil)
+	loads := memo(func(f *ssa.Function) (bool, bool) { return false, f == cx.E.Step }, isBPLoad)
+
 	var det []string
-	examined, loadsSeen := 0, 0
+	loadsSeen := 0
 	seen := map[*ssa.Function]bool{}
+	type site struct {
+		b   *ssa.BasicBlock
+		idx int
+		in  ssa.Instruction
+	}
 	var visit func(f *ssa.Function)
 	visit = func(f *ssa.Function) {
 		if f == nil || seen[f] || f == cx.E.Step || f.Blocks == nil {
 			return
 		}
 		seen[f] = true
-		examined++
 		for _, af := range f.AnonFuncs {
 			visit(af)
 		}
-		// blocks with a call through which a Step happens, and blocks that load the set
-		// (positions within a block matter when both are in one block)
-		type site struct {
-			b   *ssa.BasicBlock
-			idx int
-			in  ssa.Instruction
-		}
+		pos := map[ssa.Instruction]site{}
 		var steps, bps []site
 		for _, b := range f.Blocks {
 			for i, in := range b.Instrs {
+				pos[in] = site{b, i, in}
 				isStep, isLoad := false, isBPLoad(in)
 				for _, g := range callees(in) {
 					visit(g)
@@ -990,38 +968,100 @@ func bpFresh(cx *Ctx, r *ev.Report, run *ssa.Function) {
 		if len(steps) == 0 || len(bps) == 0 {
 			return
 		}
-		// reachability between blocks (one or more edges)
-		reach := map[*ssa.BasicBlock]map[*ssa.BasicBlock]bool{}
-		for _, b := range f.Blocks {
+		// block reachability (one or more edges), optionally avoiding a block
+		reachFrom := func(from []*ssa.BasicBlock, avoid *ssa.BasicBlock) map[*ssa.BasicBlock]bool {
 			m := map[*ssa.BasicBlock]bool{}
-			var work []*ssa.BasicBlock
-			work = append(work, b.Succs...)
+			work := append([]*ssa.BasicBlock{}, from...)
 			for len(work) > 0 {
 				x := work[len(work)-1]
 				work = work[:len(work)-1]
 				if m[x] {
 					continue
 				}
-				m[x] = true
+				m[x] = true // x is entered
+				if x == avoid {
+					continue // ... but not passed through
+				}
 				work = append(work, x.Succs...)
 			}
-			reach[b] = m
+			return m
 		}
 		before := func(a, b site) bool { // b can execute after a
-			return a.b == b.b && a.idx < b.idx || reach[a.b][b.b]
+			return a.b == b.b && a.idx < b.idx || reachFrom(a.b.Succs, nil)[b.b]
+		}
+		// staleAt: a path  l -> s -> u  exists on which l is not executed between s and u
+		staleAt := func(l, s, u site) bool {
+			if !before(l, s) {
+				return false
+			}
+			if s.b == u.b && s.idx < u.idx && !(l.b == s.b && s.idx < l.idx && l.idx < u.idx) {
+				return true // straight on in the block of the Step
+			}
+			if l.b == s.b && l.idx > s.idx {
+				return false // the load follows the Step in its block: every way on passes it
+			}
+			entered := reachFrom(s.b.Succs, l.b)
+			return entered[u.b] && (u.b != l.b || u.idx < l.idx)
 		}
 		for _, l := range bps {
-			for _, s := range steps {
-				if before(l, s) && !before(s, l) {
-					det = append(det, fmt.Sprintf("%s: CPU.BreakPoints is read in %s before the Step at %s and not again after it: a set replaced or created by a callback during that Step is not seen", cx.P.Pos(l.in.Pos()), f, cx.P.Pos(s.in.Pos())))
+			// everything computed from the loaded value
+			taint := map[ssa.Value]bool{}
+			var work []ssa.Value
+			add := func(v ssa.Value) {
+				if v != nil && !taint[v] {
+					taint[v] = true
+					work = append(work, v)
+				}
+			}
+			if v, ok := l.in.(ssa.Value); ok {
+				add(v)
+			}
+			for len(work) > 0 {
+				v := work[len(work)-1]
+				work = work[:len(work)-1]
+				refs := v.Referrers()
+				if refs == nil {
+					continue
+				}
+				for _, ref := range *refs {
+					u, known := pos[ref]
+					if !known {
+						continue
+					}
+					// a use: stale after a Step?
+					for _, s := range steps {
+						if staleAt(l, s, u) {
+							det = append(det, fmt.Sprintf("%s: a value taken from CPU.BreakPoints at %s is used in %s after the Step at %s without being read again: a set replaced or created by a callback during that Step is not seen", cx.P.Pos(ref.Pos()), cx.P.Pos(l.in.Pos()), f, cx.P.Pos(s.in.Pos())))
+						}
+					}
+					switch x := ref.(type) {
+					case *ssa.Store:
+						if taint[x.Val] {
+							if _, isFA := v.(*ssa.FieldAddr); isFA && x.Addr == v {
+								break // a store TO the field itself is no use of its value
+							}
+							for _, s := range steps {
+								if before(u, s) {
+									det = append(det, fmt.Sprintf("%s: something taken from CPU.BreakPoints is saved in %s before the Step at %s (cached across Steps)", cx.P.Pos(ref.Pos()), f, cx.P.Pos(s.in.Pos())))
+								}
+							}
+						}
+					case *ssa.MapUpdate, *ssa.Send:
+						for _, s := range steps {
+							if before(u, s) {
+								det = append(det, fmt.Sprintf("%s: something taken from CPU.BreakPoints is saved in %s before the Step at %s (cached across Steps)", cx.P.Pos(ref.Pos()), f, cx.P.Pos(s.in.Pos())))
+							}
+						}
+					}
+					if val, ok := ref.(ssa.Value); ok {
+						add(val)
+					}
 				}
 			}
 		}
 	}
 	visit(run)
-	sort.Strings(det)
 	r.Check(len(det) == 0, "C08/breakpoints-fresh/func=(*CPU).Run", rule, cx.P.Pos(run.Pos()), "shape", uniqueStrings(det)...)
 	r.Analysed["breakpoint_set_loads_examined"] = loadsSeen
 	r.AddFloor("breakpoint_set_loads", loadsSeen, 1)
-	_ = examined
 }
